@@ -286,6 +286,14 @@ func genCase(r *hlib.Rand, profile string, emit func(string, ...any)) int {
 			for i := 0; i < 3+r.Intn(5); i++ {
 				g.op("dl %d", r.Intn(4))
 			}
+			if profile == "C31" || r.Bool() {
+				// the connection manager looks at the non-primary tunnels of both ends
+				for _, x := range []int{n, m} {
+					for q := 1; q <= 2+r.Intn(3); q++ {
+						g.op("swap %d %d", x, (x+1)*1000+q)
+					}
+				}
+			}
 		case k < 95:
 			g.op("swap %d %d", n, g.guessIndex(n))
 			if r.Bool() {
